@@ -70,7 +70,18 @@ func DefaultsUniverse() *Universe {
 			Req("arr", ArrayOf(P(Int32))), Req("inner2", onlyInc), Opt("mp", MapOf(P(String))), Req("inner3", twoLevel), Req("tail", P(String)))
 		// ... and the same fields inherited through an include
 		lateInc := u.Record(fmt.Sprintf("DLI%d", n), []*Type{late}, Def("own3", P(Int32), "6"), Req("r3", P(String)))
-		u.Wrappers = append(u.Wrappers, direct, onlyInc, twoLevel, nested, late, lateInc)
+		// two includes, the first without any default
+		plain := u.Record(fmt.Sprintf("DP%d", n), nil, Req("pl", P(Int32)))
+		multi := u.Record(fmt.Sprintf("DM%d", n), []*Type{plain, direct}, Req("ownM", P(String)))
+		// every defaulted field declared optional as well (the parser reports both independently)
+		ofields := []*Field{Req("req", P(Int32))}
+		for j := i; j < i+per && j < len(cases); j++ {
+			f := Def(fmt.Sprintf("f%d", j-i), cases[j].t, cases[j].lit)
+			f.Optional = true
+			ofields = append(ofields, f)
+		}
+		optDef := u.Record(fmt.Sprintf("DO%d", n), nil, ofields...)
+		u.Wrappers = append(u.Wrappers, direct, onlyInc, twoLevel, nested, late, lateInc, multi, optDef)
 	}
 	return u
 }
